@@ -1,4 +1,4 @@
-import GlmVerif.Sem.PolyTable
+import GlmVerif.Sem.PolyReflect
 import Mathlib.Algebra.Field.Basic
 import Mathlib.Algebra.CharZero.Defs
 import Mathlib.Tactic.FieldSimp
@@ -83,14 +83,26 @@ theorem E.frac_sound {o : Ops K} (ho : FieldLike o) (e : E) (hr : e.litsOK = tru
     simp only [E.litsOK, Bool.and_eq_true] at hr
     have ⟨ha0, ha⟩ := iha hr.1 (fun d hd' => hd d (by simp [E.divisors, hd']))
     have ⟨hb0, hb⟩ := ihb hr.2 (fun d hd' => hd d (by simp [E.divisors, hd']))
-    refine ⟨by simp [E.frac, mulE_eval ho, ha0, hb0], ?_⟩
-    simp only [E.frac, E.eval, ho.add, mulE_eval ho]; rw [ha, hb]; field_simp
+    by_cases hc : (a.frac.2 == b.frac.2) = true
+    · have hab : a.frac.2 = b.frac.2 := eq_of_beq hc
+      simp only [E.frac, hc, if_true]
+      refine ⟨ha0, ?_⟩
+      simp only [E.eval, ho.add]; rw [ha, hb, ← hab]; field_simp
+    simp only [E.frac, hc, Bool.false_eq_true, if_false]
+    refine ⟨by simp [mulE_eval ho, ha0, hb0], ?_⟩
+    simp only [E.eval, ho.add, mulE_eval ho]; rw [ha, hb]; field_simp
   | sub a b iha ihb =>
     simp only [E.litsOK, Bool.and_eq_true] at hr
     have ⟨ha0, ha⟩ := iha hr.1 (fun d hd' => hd d (by simp [E.divisors, hd']))
     have ⟨hb0, hb⟩ := ihb hr.2 (fun d hd' => hd d (by simp [E.divisors, hd']))
-    refine ⟨by simp [E.frac, mulE_eval ho, ha0, hb0], ?_⟩
-    simp only [E.frac, E.eval, ho.sub, mulE_eval ho]; rw [ha, hb]; field_simp
+    by_cases hc : (a.frac.2 == b.frac.2) = true
+    · have hab : a.frac.2 = b.frac.2 := eq_of_beq hc
+      simp only [E.frac, hc, if_true]
+      refine ⟨ha0, ?_⟩
+      simp only [E.eval, ho.sub]; rw [ha, hb, ← hab]; field_simp
+    simp only [E.frac, hc, Bool.false_eq_true, if_false]
+    refine ⟨by simp [mulE_eval ho, ha0, hb0], ?_⟩
+    simp only [E.eval, ho.sub, mulE_eval ho]; rw [ha, hb]; field_simp
   | mul a b iha ihb =>
     simp only [E.litsOK, Bool.and_eq_true] at hr
     have ⟨ha0, ha⟩ := iha hr.1 (fun d hd' => hd d (by simp [E.divisors, hd']))
@@ -171,20 +183,5 @@ theorem E.divOK_of_allowed {o : Ops K} (ho : FieldLike o) {allowed : List E} (e 
     simp only [E.divisors] at h
     intro d hd; simp only [E.divisors] at hd; exact iha h d hd
   | _ => intro d hd; simp [E.divisors] at hd
-
-theorem Unit.fracAgrees_sound {o : Ops K} (ho : FieldLike o) {u : Unit} {n : Nat} {spec : Nat → E}
-    {allowed : List E}
-    (h : u.fracAgrees n spec allowed = true) (j : Nat) (hj : j < n) (env : Nat → K)
-    (hall : ∀ a ∈ allowed, a.divOK o env ∧ a.eval o env ≠ 0) :
-    (u.out j).eval o env = (spec j).eval o env := by
-  simp only [Unit.fracAgrees, Bool.and_eq_true, List.all_eq_true, List.mem_range] at h
-  have := h.2 j hj
-  split at this
-  · rename_i e he
-    simp only [Bool.and_eq_true] at this
-    rw [he]
-    exact fracEq_sound ho this.1.1 env (E.divOK_of_allowed ho e this.1.2 env hall)
-      (E.divOK_of_allowed ho _ this.2 env hall)
-  · simp at this
 
 end Glm
